@@ -22,9 +22,9 @@ CLAIM = dict(
          "over multisets of 2-5 contributors, each built in its own Types collection, under ALL permutations of the "
          "contributor order; the specification predicates are evaluated on the implementation's own observations.",
     design_ref="DESIGN.md §5 C09, Appendix A.5, Appendix B",
-    note="Five defects of the real aggregator were found; two are repaired in the repository (commits 874f221, 0bf540d; the "
-         "model follows the repaired code and their witnesses are regression cases), three remain known findings (see "
-         "PROPOSED_KNOWN). Not proved: 'failure only on conflict' and order independence of SUCCESS even "
+    note="Six defects of the real aggregator were found; two are repaired in the repository (commits 874f221, 0bf540d; the "
+         "model follows the repaired code and their witnesses are regression cases), four remain known findings (see "
+         "known-findings.json). Not proved: 'failure only on conflict' and order independence of SUCCESS even "
          "for flat requirements (needs completeness of the checker at the given fuel and panic-freedom of the copy); `use`d "
          "types and resources are covered by the model, the correspondence and the executable specification only. "
          "Trusted: Coq kernel; extraction; OCaml driver; Rust harness; the hand-written models Types.v/Checker.v/"
